@@ -32,6 +32,16 @@ TEXT = {
         "note": TB + "Modelled rather than verified: config.go. unicode.ToUpper enters as a parameter with three stated facts, checked exhaustively against Go's tables each run.",
         "technique": "Lean 4 proofs (list algebra: split/join/trim, idempotence) + grid/fuzz differential correspondence in-process and via the real binary",
     },
+    "C15": {
+        "level": "Theorems for all byte strings: recogniseBare_iff (no-argument keywords are recognised iff the line is blanks // blanks @keyword then end-of-line "
+                 "or blank + LF-free text), keyword_exact_* (any recognition by any of the seven recognisers implies the line begins with the exact lowercase keyword "
+                 "followed by end or blank: other case, longer words, mid-sentence, block comments are inert), list_names_valid / constructor_names / ignore_codes_upper "
+                 "(captured arguments are well-formed identifiers / paths / upper-cased codes, non-empty where required), prefilter_complete (the pre-filter only drops "
+                 "lines the grammar rejects). The regexes are tied to the recognisers by comparing all seven verdicts on every token sequence up to a bound and on seeded byte mutations, "
+                 "through the real ReadAllAnnotations / ReadIgnoreAnnotations. Attachment sites are covered by the whole-program suites (C01-C04, C09).",
+        "note": TB + "Modelled rather than verified: the regexes (closed-form recognisers + bounded-exhaustive differential tie); maximal-munch completeness of list arguments is tied by correspondence, not proved.",
+        "technique": "Lean 4 proofs (recogniser = relational grammar for bare keywords; soundness/exactness for argument keywords) + bounded-exhaustive and fuzz differential correspondence against the regexes",
+    },
 }
 
 # properties not (yet) claimed, with the reason; anything claimed in registry.PROPS is dropped from this list automatically
